@@ -4,6 +4,7 @@ import (
 	"context"
 	"encoding/json"
 	"fmt"
+	cid "github.com/ipfs/go-cid"
 	"os"
 	"reflect"
 	"sort"
@@ -25,6 +26,7 @@ func init() { commands["isolation"] = isolationCmd }
 
 // IsolationInput: behaviours of spec/Isolation.tla on one real instance holding several databases.
 type IsolationInput struct {
+	Closed     []string    `json:"closed"` // databases whose write list does not name the remote writer
 	Property   string      `json:"property"`
 	Seed       int64       `json:"seed"`
 	DBs        []string    `json:"dbs"`
@@ -32,6 +34,7 @@ type IsolationInput struct {
 }
 
 type isoDB struct {
+	closed bool // the remote writer is not in the write list
 	name   string
 	stype  string
 	local  *sim.StoreRef // on the instance under test
@@ -41,19 +44,20 @@ type isoDB struct {
 }
 
 type isoRun struct {
-	shared  *orbitdb.CreateDBOptions // when set, the caller reuses this one value for every Open
-	in      *IsolationInput
-	res     *Result
-	bid     string
-	step    int
-	w       *sim.World
-	inst    *sim.Node
-	rem     *sim.Node
-	dbs     map[string]*isoDB
-	mu      sync.Mutex
-	evs     map[string][]string // address -> store events seen on the bus (kind + entry log ids)
-	flushEm event.Emitter
-	flushed chan struct{}
+	remAccepted bool                     // an entry of the remote writer has been merged into some database of the instance
+	shared      *orbitdb.CreateDBOptions // when set, the caller reuses this one value for every Open
+	in          *IsolationInput
+	res         *Result
+	bid         string
+	step        int
+	w           *sim.World
+	inst        *sim.Node
+	rem         *sim.Node
+	dbs         map[string]*isoDB
+	mu          sync.Mutex
+	evs         map[string][]string // address -> store events seen on the bus (kind + entry log ids)
+	flushEm     event.Emitter
+	flushed     chan struct{}
 }
 
 func (r *isoRun) violate(kind, detail string, exp, got interface{}) {
@@ -76,8 +80,14 @@ func (r *isoRun) setup(tag string) error {
 	for i, name := range r.in.DBs {
 		d := &isoDB{name: name, stype: isoTypes[i%len(isoTypes)]}
 		// mixed write lists: explicit pair, wildcard, explicit pair, ...
+		// mixed write lists: explicit pair, closed to the remote writer, wildcard, explicit pair
 		writers := []string{r.inst.DB.Identity().ID, r.rem.DB.Identity().ID}
-		if i%2 == 1 {
+		for _, c := range r.in.Closed {
+			d.closed = d.closed || c == name
+		}
+		if d.closed {
+			writers = []string{r.inst.DB.Identity().ID}
+		} else if i%2 == 0 && i > 0 {
 			writers = []string{"*"}
 		}
 		opts := &orbitdb.CreateDBOptions{}
@@ -293,6 +303,9 @@ func (r *isoRun) burst() {
 	msgs := []sent{}
 	for _, n := range names {
 		d := r.dbs[n]
+		if d.closed {
+			continue
+		}
 		e, err := r.write(d.remote, d)
 		if err != nil {
 			r.violate("write-error", err.Error(), nil, nil)
@@ -344,6 +357,7 @@ func (r *isoRun) burst() {
 }
 
 func (r *isoRun) run(b Behaviour, idx int) {
+	r.remAccepted = false
 	r.shared = nil
 	if idx%2 == 1 {
 		r.shared = &orbitdb.CreateDBOptions{}
@@ -376,7 +390,23 @@ func (r *isoRun) run(b Behaviour, idx int) {
 				return
 			}
 		case "RemoteWrite":
-			e, err := r.write(d.remote, d)
+			var e ipfslog.Entry
+			var err error
+			if d.closed {
+				// the remote writer is not allowed here: it crafts the entry with its own log of the database
+				d.nw++
+				hs := d.remote.S.OpLog().Heads().Slice()
+				next, t := []cid.Cid{}, 0
+				for _, h := range hs {
+					next = append(next, h.GetHash())
+					if h.GetClock().GetTime() > t {
+						t = h.GetClock().GetTime()
+					}
+				}
+				e, err = mkEntry(ctx, r.rem, r.rem.DB.Identity(), d.local.Addr, opPayload(d.stype, fmt.Sprintf("%s-%d", d.name, d.nw)), next, t+1)
+			} else {
+				e, err = r.write(d.remote, d)
+			}
 			if err != nil {
 				r.violate("write-error", err.Error(), nil, nil)
 				return
@@ -427,6 +457,20 @@ func (r *isoRun) run(b Behaviour, idx int) {
 				r.mu.Unlock()
 				r.violate("interference", fmt.Sprintf("%s on database %s changed database %s (its events so far: %v)", st.Action, dn, n, evl), before[n], after)
 			}
+		}
+		// a database closed to the remote writer refuses its heads, whatever that writer was allowed elsewhere
+		if st.Action == "Replicate" && d.closed {
+			r.res.Comparisons++
+			if after := r.observe(d); !reflect.DeepEqual(after, before[dn]) {
+				kind := "closed-db-merged"
+				if r.remAccepted {
+					kind = "interference"
+				}
+				r.violate(kind, fmt.Sprintf("database %s does not name the remote writer in its write list, yet its heads changed it (the same writer had been accepted by another database of the instance: %v)", dn, r.remAccepted), before[dn], after)
+			}
+		}
+		if st.Action == "Replicate" && !d.closed {
+			r.remAccepted = true
 		}
 		// the touched database against the specification
 		o := r.observe(d)
